@@ -19,7 +19,16 @@ import (
 //	a: Store / RevertHead drop the in-memory running filter when they return an error
 //	b: RevertHead deletes the persisted running-filter snapshot in its batch
 //	c: a revert crossing a window boundary backwards deletes the persisted previous window
-func probeFixes() string {
+func probeFixes() (flags string, problem string) {
+	defer func() {
+		if r := recover(); r != nil {
+			flags, problem = "000", fmt.Sprint(r)
+		}
+	}()
+	return probeFixesInner(), ""
+}
+
+func probeFixesInner() string {
 	flag := func(b bool) string {
 		if b {
 			return "1"
